@@ -1,21 +1,21 @@
 SPECIFICATION Spec
 CONSTANTS
-  NOISY = TRUE
-  PAIRS <- PAIRS_all
+  NOISY = FALSE
+  PAIRS <- PAIRS_cross
   NP = 8
   NR = 2
   NC = 5
-  MINPKS = 2
+  MINPKS = 0
   MAXGRAINS = 3
   UNIQ_NUM = 1
   UNIQ_DEN = 2
   NPASS = 2
-  MINPKS2 = 2
+  MINPKS2 = 1
   NCAP = 0
-  ALLHITS = TRUE
-  NSAVE = 0
+  ALLHITS = FALSE
+  NSAVE = 1
   FRESH = TRUE
-  NRESET = 0
+  NRESET = 2
   SHARE = FALSE
 INVARIANT GaRange
 INVARIANT AcceptedScore
@@ -25,4 +25,7 @@ INVARIANT NoRepeat
 INVARIANT OwnPeaksKept
 INVARIANT Completeness
 PROPERTY Termination
+PROPERTY Settles
+PROPERTY SaveOK
+PROPERTY ResetOK
 CHECK_DEADLOCK FALSE
